@@ -18,15 +18,15 @@ func init() {
 		ID:    "C15",
 		Level: "other",
 		Run:   checkC15,
-		Explanation: "Decides for every error value: (R1) exclusivity and totality: IsTransientError(e) == (e != nil && !IsPermanentError(e)) and IsPermanentError(nil) == false, read off the control flow of the two functions (complete); (R2) the tests for context.Canceled, context.DeadlineExceeded and TimeoutError that make an error transient precede every `return true` of IsPermanentError and are unwrap-aware (errors.Is / errors.As, not a type assertion or ==), and the library's own permanent sentinels are tested with errors.Is; " +
+		Explanation: "Decides for every error value: (R1) exclusivity and totality: IsTransientError(e) == (e != nil && !IsPermanentError(e)) and IsPermanentError(nil) == false, read off a decision model of the two functions (every path as a conjunction of signed atoms, helpers inlined, table scans abstracted; complete); (R2) the tests for context.Canceled, context.DeadlineExceeded and TimeoutError that make an error transient precede every `return true` of IsPermanentError and are unwrap-aware (errors.Is / errors.As, not a type assertion or ==), and the library's own permanent sentinels are tested with errors.Is; " +
 			"(R3) agreement with the pinned NATS client, by constant folding over the loaded sources of nats.go and nats-server: the texts the client produces for a failed revision-checked Update ('nats: wrong last sequence: N'), for a Create on an existing key ('...: key exists') and for a missing key are matched by a permanent substring pattern or by an errors.Is test on the client's sentinel, and the texts of ErrTimeout, ErrNoResponders and ErrConnectionClosed match no permanent pattern; " +
 			"(R4) the consumers (heartbeat loop, RetryWithBackoff) consult IsPermanentError before counting/retrying.",
 		NotDecided: []string{"errors produced by future versions of the client", "message texts assembled at run time by the server beyond the constant part of their templates"},
 		Assumptions: []string{"the pinned nats.go / nats-server sources in the module cache are the ones linked", "strings.Contains / strings.ToLower / errors.Is / errors.As semantics"},
 		Rules: map[string]string{
-			"R1": "IsTransientError: every Return constant; true-returns guarded by NOT(err==nil) and NOT IsPermanentError(err); false-returns by err==nil or IsPermanentError(err). IsPermanentError: the err==nil edge returns false",
-			"R2": "in IsPermanentError every `return true` is guarded by NOT errors.Is(err, context.Canceled), NOT errors.Is(err, context.DeadlineExceeded), NOT errors.As(err, **TimeoutError); the sentinels ErrInvalidConfig / ErrPermissionDenied / ErrBucketNotFound are tested with errors.Is on the parameter",
-			"R3": "pattern table (constants stored to the ranged []string, lower-case) and sentinel tests vs. constants extracted from the loaded nats.go (ErrKeyExists message + code, ErrKeyNotFound, ErrTimeout, ErrNoResponders, ErrConnectionClosed, APIError format) and nats-server (description of error 10071)",
+			"R1": "decision model (classify.go): both classifiers are enumerated into paths = conjunctions of signed atoms (err==nil, errors.Is(err,X), errors.As(err,*T), strings.Contains(lower(err.Error()),p), table scans, IsPermanentError(err)) with boolean helpers inlined; all paths consistent with {nil} return false in both; in IsTransientError all paths consistent with {!nil, IsPermanentError} return false and all consistent with {!nil, !IsPermanentError} return true",
+			"R2": "in IsPermanentError all paths consistent with {!nil, A} return false for A in errors.Is(err, context.Canceled), errors.Is(err, context.DeadlineExceeded), errors.As(err, **TimeoutError) (the atoms exist only for the unwrap-aware forms); all paths consistent with {!nil, none of those, errors.Is(err, S)} return true for S in ErrInvalidConfig / ErrPermissionDenied / ErrBucketNotFound",
+			"R3": "patterns and sentinels read off the decision model (each confirmed to force `true`, and their absence to force `false`), lower-case, vs. constants extracted from the loaded nats.go (ErrKeyExists message + code, ErrKeyNotFound, ErrTimeout, ErrNoResponders, ErrConnectionClosed, APIError format) and nats-server (description of error 10071)",
 			"R4": "heartbeat loop: IsPermanentError(updateErr) is tested on the failure edge; RetryWithBackoff: IsPermanentError(err) true edge returns",
 		},
 	})
@@ -41,103 +41,72 @@ func checkC15(c *Ctx) {
 		c.undecided("R1", "classifiers", nil, "IsPermanentError / IsTransientError not found")
 		return
 	}
-	errNil := func(s *Sym) bool {
-		return s.Op == "bin" && s.Name == "==" && ((s.Args[0].String() == "nil" && s.Args[1].Op == "param") || (s.Args[1].String() == "nil" && s.Args[0].Op == "param"))
+	permPaths, pp := m.Decisions(perm)
+	transPaths, tp := m.Decisions(trans, perm)
+	for _, p := range append(pp, tp...) {
+		c.undecided("R1", "decision model: "+clip(p, 80), firstInstr(perm), "%s", p)
 	}
-	isPermCall := func(s *Sym) bool {
-		return s.Op == "call" && s.Name == funcName(perm) && len(s.Args) == 1 && s.Args[0].Op == "param"
+	if len(permPaths) == 0 || len(transPaths) == 0 {
+		c.undecided("R1", "decision model", firstInstr(perm), "no paths enumerated (IsPermanentError %d, IsTransientError %d)", len(permPaths), len(transPaths))
+		return
 	}
-	// ---- R1 -----------------------------------------------------------------------
-	for _, b := range liveBlocks(trans) {
-		ret, ok := b.Instrs[len(b.Instrs)-1].(*ssa.Return)
-		if !ok || b == trans.Recover {
-			continue
+	witness := func(w *cpath) string {
+		if w == nil {
+			return "-"
 		}
-		key := fmt.Sprintf("IsTransientError exit #%d", exitOrdinal(trans, b))
-		k, isC := constBool(returnValue(ret, 0))
-		if !isC {
-			c.undecided("R1", key, ret, "non-constant result %s", m.Sym.Of(returnValue(ret, 0)))
-			continue
+		return fmt.Sprintf("path %s returning at %s", clip(w.String(), 400), c.posOf(w.Ret))
+	}
+	ask := func(rule, key string, paths []cpath, at ssa.Instruction, a map[string]bool, want bool, why string) {
+		ok, n, w := allReturn(paths, a, want)
+		var as []string
+		for k, v := range a {
+			as = append(as, fmt.Sprintf("%s=%v", k, v))
 		}
-		gs := m.Guards(b)
-		if k {
-			c.check(hasLit(gs, false, errNil) && hasLit(gs, false, isPermCall), "R1", key+" (true)", ret, "guarded by err != nil and !IsPermanentError(err): %s", clip(fmtLits(gs), 300))
+		sort.Strings(as)
+		if n == 0 {
+			c.undecided(rule, key, at, "no path is consistent with {%s}: the atoms were not recognised in the function", strings.Join(as, ", "))
+			return
+		}
+		if ok {
+			c.ok(rule, key, at, "all %d paths consistent with {%s} return %v", n, strings.Join(as, ", "), want)
 		} else {
-			c.check(hasLit(gs, true, errNil) || hasLit(gs, true, isPermCall), "R1", key+" (false)", ret, "guarded by err == nil or IsPermanentError(err): %s", clip(fmtLits(gs), 300))
+			c.viol(rule, key, w.Ret, "with {%s} the result must be %v, but %s. %s", strings.Join(as, ", "), want, witness(w), why)
 		}
 	}
-	nilEdge := false
-	for _, b := range liveBlocks(perm) {
-		ret, ok := b.Instrs[len(b.Instrs)-1].(*ssa.Return)
-		if !ok || b == perm.Recover {
-			continue
-		}
-		k, isC := constBool(returnValue(ret, 0))
-		if !isC {
-			c.undecided("R1", fmt.Sprintf("IsPermanentError exit #%d", exitOrdinal(perm, b)), ret, "non-constant result")
-			continue
-		}
-		gs := m.Guards(b)
-		if hasLit(gs, true, errNil) {
-			nilEdge = true
-			c.check(!k, "R1", "IsPermanentError(nil) is false", ret, "result on the err == nil edge: %v", k)
-		} else if k && !hasLit(gs, false, errNil) {
-			c.viol("R1", fmt.Sprintf("IsPermanentError exit #%d", exitOrdinal(perm, b)), ret, "`return true` not guarded by err != nil")
-		}
-	}
-	if !nilEdge {
-		c.viol("R1", "IsPermanentError(nil) is false", firstInstr(perm), "no return on an err == nil edge")
-	}
+	permCall := "call:" + funcName(perm)
+	// ---- R1 -----------------------------------------------------------------------
+	ask("R1", "IsPermanentError(nil) is false", permPaths, firstInstr(perm), map[string]bool{"nil": true}, false, "")
+	ask("R1", "IsTransientError(nil) is false", transPaths, firstInstr(trans), map[string]bool{"nil": true}, false, "")
+	ask("R1", "IsTransientError is false for a permanent error", transPaths, firstInstr(trans), map[string]bool{"nil": false, permCall: true}, false, "An error would be both permanent and transient.")
+	ask("R1", "IsTransientError is true for every other error", transPaths, firstInstr(trans), map[string]bool{"nil": false, permCall: false}, true, "A non-nil error would be neither permanent nor transient.")
 	c.floor("R1", 3)
 
 	// ---- R2 -----------------------------------------------------------------------
-	isErrorsIs := func(s *Sym, global string) bool {
-		return s.Op == "call" && s.Name == "errors.Is" && len(s.Args) == 2 && s.Args[0].Op == "param" && strings.Contains(s.Args[1].String(), global)
-	}
-	isAsTimeout := func(s *Sym) bool {
-		if s.Op != "call" || s.Name != "errors.As" || len(s.Args) != 2 || s.Args[0].Op != "param" {
-			return false
-		}
-		t := s.Args[1].Typ
-		if t == nil && s.Args[1].V != nil {
-			t = s.Args[1].V.Type()
-		}
-		return t != nil && strings.HasSuffix(types.TypeString(t, shortQual), "**leader.TimeoutError") || strings.Contains(s.Args[1].String(), "timeoutErr")
-	}
-	nTrue := 0
-	for _, b := range liveBlocks(perm) {
-		ret, ok := b.Instrs[len(b.Instrs)-1].(*ssa.Return)
-		if !ok || b == perm.Recover {
+	isElems, asElems := atomElems(permPaths, "is"), atomElems(permPaths, "as")
+	canceled, deadline := findElem(isElems, "context.Canceled"), findElem(isElems, "context.DeadlineExceeded")
+	asTimeout := findElem(asElems, "TimeoutError")
+	base := map[string]bool{"nil": false}
+	for _, tr := range []struct{ elem, name string }{{canceled, "errors.Is(err, context.Canceled)"}, {deadline, "errors.Is(err, context.DeadlineExceeded)"}, {asTimeout, "errors.As(err, **TimeoutError)"}} {
+		key := tr.name + " => not permanent"
+		if tr.elem == "" {
+			c.viol("R2", key, firstInstr(perm), "IsPermanentError contains no unwrap-aware test %s (a bare type assertion or == misses wrapped errors)", tr.name)
 			continue
 		}
-		if k, isC := constBool(returnValue(ret, 0)); !isC || !k {
-			continue
-		}
-		nTrue++
-		gs := m.Guards(b)
-		a := hasLit(gs, false, func(s *Sym) bool { return isErrorsIs(s, "context.Canceled") })
-		d := hasLit(gs, false, func(s *Sym) bool { return isErrorsIs(s, "context.DeadlineExceeded") })
-		t := hasLit(gs, false, isAsTimeout)
-		key := fmt.Sprintf("transient tests precede `return true` #%d of IsPermanentError", nTrue)
-		c.check(a && d && t, "R2", key, ret, "NOT errors.Is(err, context.Canceled): %v; NOT errors.Is(err, context.DeadlineExceeded): %v; NOT errors.As(err, **TimeoutError): %v (a bare type assertion or == misses wrapped errors)", a, d, t)
+		ask("R2", key, permPaths, firstInstr(perm), map[string]bool{"nil": false, tr.elem: true}, false, "The transient tests must precede every `return true`.")
+		base[tr.elem] = false
 	}
 	for _, sentinel := range []string{"ErrInvalidConfig", "ErrPermissionDenied", "ErrBucketNotFound"} {
-		found := false
-		eachInstr(perm, func(in ssa.Instruction) {
-			if ifi, ok := in.(*ssa.If); ok {
-				l := m.litOf(ifi.Cond, true, ifi)
-				if isErrorsIs(l.S, "leader."+sentinel) {
-					edge := map[bool]int{true: 0, false: 1}[l.Truth]
-					blk := in.Block().Succs[edge]
-					if ret, ok := blk.Instrs[len(blk.Instrs)-1].(*ssa.Return); ok {
-						if k, isC := constBool(returnValue(ret, 0)); isC && k {
-							found = true
-						}
-					}
-				}
-			}
-		})
-		c.check(found, "R2", "errors.Is(err, "+sentinel+") => permanent", firstInstr(perm), "unwrap-aware sentinel test returning true: %v", found)
+		key := "errors.Is(err, " + sentinel + ") => permanent"
+		e := findElem(isElems, "leader."+sentinel)
+		if e == "" {
+			c.viol("R2", key, firstInstr(perm), "IsPermanentError contains no errors.Is test on %s", sentinel)
+			continue
+		}
+		a := map[string]bool{e: true}
+		for k, v := range base {
+			a[k] = v
+		}
+		ask("R2", key, permPaths, firstInstr(perm), a, true, "")
 	}
 	c.floor("R2", 5)
 
@@ -173,57 +142,64 @@ func checkC15(c *Ctx) {
 	}
 }
 
-// permanentPatterns extracts the constant needles of the substring scan in IsPermanentError.
+// permanentPatterns reads the decision model of IsPermanentError: the message fragments and the
+// sentinels that make a non-nil, non-cancelled, non-timeout error permanent, each confirmed by
+// "with this atom true (and the transient tests false) every path returns true"; and that
+// nothing else does (with all of them false every path returns false).
 func (m *Model) permanentPatterns() (pats []string, undecided string, sentinels []string) {
 	perm := m.libFunc("IsPermanentError")
 	if perm == nil {
 		return nil, "IsPermanentError not found", nil
 	}
-	// needles: second argument of strings.Contains whose true edge returns true
-	eachInstr(perm, func(in ssa.Instruction) {
-		ifi, ok := in.(*ssa.If)
-		if !ok {
-			return
+	paths, problems := m.Decisions(perm)
+	if len(problems) > 0 {
+		return nil, strings.Join(problems, "; "), nil
+	}
+	isElems, asElems, conElems := atomElems(paths, "is"), atomElems(paths, "as"), atomElems(paths, "contains")
+	base := map[string]bool{"nil": false}
+	transientIs := map[string]bool{}
+	for _, sub := range []string{"context.Canceled", "context.DeadlineExceeded"} {
+		if e := findElem(isElems, sub); e != "" {
+			base[e] = false
+			transientIs[e] = true
 		}
-		l := m.litOf(ifi.Cond, true, ifi)
-		if l.S.Op == "call" && l.S.Name == "strings.Contains" && len(l.S.Args) == 2 {
-			call := l.S.V.(*ssa.Call)
-			needle := call.Call.Args[1]
-			// the haystack must be the lower-cased message of the parameter
-			hay := m.Sym.Of(call.Call.Args[0]).String()
-			if !strings.Contains(hay, "strings.ToLower(") || !strings.Contains(hay, "error.Error(param:") {
-				undecided = "haystack of strings.Contains is " + hay + ", not strings.ToLower(err.Error())"
-			}
-			if s, ok := constStr(needle); ok {
-				pats = append(pats, s)
-				return
-			}
-			// element of a ranged constant slice: collect the constants stored to the backing array
-			found := false
-			eachInstr(perm, func(x ssa.Instruction) {
-				if st, ok := x.(*ssa.Store); ok {
-					if _, isIdx := st.Addr.(*ssa.IndexAddr); isIdx {
-						if s, ok := constStr(st.Val); ok {
-							pats = append(pats, s)
-							found = true
-						}
-					}
-				}
-			})
-			if !found {
-				undecided = "the needle of strings.Contains is not a constant or an element of a constant table: " + m.Sym.Of(needle).String()
-			}
+	}
+	if e := findElem(asElems, "TimeoutError"); e != "" {
+		base[e] = false
+	}
+	with := func(e string) map[string]bool {
+		a := map[string]bool{e: true}
+		for k, v := range base {
+			a[k] = v
 		}
-		if l.S.Op == "call" && l.S.Name == "errors.Is" && len(l.S.Args) == 2 {
-			edge := map[bool]int{true: 0, false: 1}[l.Truth]
-			blk := in.Block().Succs[edge]
-			if ret, ok := blk.Instrs[len(blk.Instrs)-1].(*ssa.Return); ok {
-				if k, isC := constBool(returnValue(ret, 0)); isC && k {
-					sentinels = append(sentinels, l.S.Args[1].String())
-				}
-			}
+		return a
+	}
+	none := map[string]bool{}
+	for k, v := range base {
+		none[k] = v
+	}
+	for _, e := range conElems {
+		none[e] = false
+		if ok, n, _ := allReturn(paths, with(e), true); ok && n > 0 {
+			pats = append(pats, strings.TrimPrefix(e, "contains:"))
 		}
-	})
+	}
+	for _, e := range isElems {
+		if transientIs[e] {
+			continue
+		}
+		none[e] = false
+		if ok, n, _ := allReturn(paths, with(e), true); ok && n > 0 {
+			sentinels = append(sentinels, strings.TrimPrefix(e, "is:"))
+		}
+	}
+	if ok, n, w := allReturn(paths, none, false); !ok || n == 0 {
+		desc := "no consistent path"
+		if w != nil {
+			desc = clip(w.String(), 300)
+		}
+		return nil, "an error that matches no pattern and no sentinel can still be classified permanent: " + desc, nil
+	}
 	sort.Strings(pats)
 	pats = uniq(pats)
 	return
